@@ -583,6 +583,22 @@ func loopUntilEmpty(fn *ssa.Function) (bool, string) {
 		if !ok {
 			return false, "loop condition is not a comparison"
 		}
+		// offset form: offset < len(data) with offset a counter of this header
+		{
+			x, y := bo.X, bo.Y
+			if bo.Op == token.GTR {
+				x, y = y, x
+			}
+			if phi, isPhi := x.(*ssa.Phi); isPhi && phi.Block() == b && (bo.Op == token.LSS || bo.Op == token.GTR) {
+				if ln, isCall := y.(*ssa.Call); isCall {
+					if bi, isB := ln.Common().Value.(*ssa.Builtin); isB && bi.Name() == "len" {
+						if _, isParam := ln.Common().Args[0].(*ssa.Parameter); isParam {
+							return true, ""
+						}
+					}
+				}
+			}
+		}
 		call, ok := bo.X.(*ssa.Call)
 		cst, ok2 := bo.Y.(*ssa.Const)
 		if !ok || !ok2 {
